@@ -240,8 +240,12 @@ def main_global(out, jobs):
   for mu in mus:
     mu['owners'] = owners.get(f"{mu['file']}:{mu['func']}", [])
   print('mutants', len(mus), 'functions', len(fns), flush=True)
+  res = []
   with mp.Pool(jobs) as pool:
-    res = pool.map(work_global, mus, chunksize=2)
+    for i, r in enumerate(pool.imap_unordered(work_global, mus, chunksize=2)):
+      res.append(r)
+      if i % 200 == 0:
+        print('done', i, flush=True)
   counts = {}
   for r in res:
     counts[r['status']] = counts.get(r['status'], 0) + 1
